@@ -312,7 +312,8 @@ def main(argv):
             broken_theorem = gen_info["broken"]
 
     # 2-4. correspondence
-    res = one_round(pid, cfg, seed, tier) if bok else {"harness_ok": False, "harness_out": [], "cases": [], "bad": [],
+    pre_env = (gen_info or {}).get("env") or None
+    res = one_round(pid, cfg, seed, tier, pre_env) if bok else {"harness_ok": False, "harness_out": [], "cases": [], "bad": [],
                                                        "coq_errs": [], "stats": {}, "extra_files": {}}
     harness_fail = None
     if bok and not res["harness_ok"]:
@@ -368,7 +369,7 @@ def main(argv):
         found = None
         if bok:
             for s2 in (seed + 1000, seed + 2000, seed + 3000):
-                r2 = one_round(pid, cfg, s2, tier)
+                r2 = one_round(pid, cfg, s2, tier, pre_env)
                 v2, k2, m2 = classify(pid, r2, known)
                 if v2:
                     found = (s2, v2[0])
